@@ -209,4 +209,34 @@ def runDirOps : DirState → List DirOp → DirState × List Bool
     let q := runDirOps r.1 rest
     (q.1, r.2 :: q.2)
 
+/-! ## Which files count as preliminary records of a step
+
+When the key id is not known up front (the gpg key-argument forms),
+`in_toto_record_stop` looks for the preliminary record by step name:
+`glob('.<escaped step>.*.link-unfinished')`, keeping the names whose key-id part
+contains no dot. -/
+
+/-- `l = p ++ r` for some `r`: that `r`. -/
+def stripPrefix? : Str → Str → Option Str
+  | [], l => some l
+  | _ :: _, [] => none
+  | a :: p, b :: l => if a = b then stripPrefix? p l else none
+
+/-- `l = r ++ s` for some `r`: that `r`. -/
+def stripSuffix? (s l : Str) : Option Str := (stripPrefix? s.reverse l.reverse).map List.reverse
+
+def unfinishedSuffix : Str := lit ".link-unfinished"
+
+/-- `UNFINISHED_FILENAME_FORMAT`: `.<step>.<keyid[:8]>.link-unfinished` -/
+def unfinishedName (step keyid : Str) : Str := '.' :: step ++ '.' :: trunc8 keyid ++ unfinishedSuffix
+
+/-- Does the file name count as a preliminary record of `step`? -/
+def selectsPrelim (step file : Str) : Bool :=
+  match stripPrefix? ('.' :: step ++ ['.']) file with
+  | none => false
+  | some rest =>
+    match stripSuffix? unfinishedSuffix rest with
+    | none => false
+    | some mid => !mid.contains '.'
+
 end InToto
